@@ -83,7 +83,11 @@ var fallbackPkgs = map[string]bool{
 	"unicode": true, "cmp": true, "fmt": true, "maps": true, "math/bits": true,
 	"strconv": true, "iter": true, "internal/bytealg": true, "internal/stringslite": true,
 	"github.com/zclconf/go-cty/cty/function": false,
+	"errors": true,
 }
+
+// packages on the fallback list whose initialisers are not executed (they need reflection)
+var noInitPkgs = map[string]bool{"errors": true, "fmt": true}
 
 // isOpaque reports whether values of T are kept as native handles.
 func (w *world) isOpaque(T types.Type) bool {
